@@ -38,8 +38,14 @@ def extract_vars(text):
     return names
 
 
+def extract_labels(text):
+    """Labels of the translation: definitions `lbl(self) == /\\ pc[self] = "lbl"`."""
+    reg = translation_region(text)
+    return re.findall(r'^(\w+)\(self\) == /\\ pc\[self\] = "\1"', reg, re.M)
+
+
 def make_trace_module(spec, variables, runs, extra_defs="", extends_extra="", use_next="Next", use_init="Init",
-                      reset_extra=""):
+                      reset_extra="", labels=None):
     """runs: list of runs; a run is a list of state strings (first = initial state, the rest
     successive steps) or of tuples (kind, ref, state) with kind 'i' (initial state), 's' (step from
     the previous record) or 'j' (jump to a state that already occurs at position ref of the same
@@ -48,12 +54,26 @@ def make_trace_module(spec, variables, runs, extra_defs="", extends_extra="", us
     for r in runs:
         base = len(recs)
         for i, st in enumerate(r):
+            pl = ""
             if isinstance(st, str):
                 kind, ref, sts = ("i" if i == 0 else "s"), 0, st
+            elif isinstance(st, dict):
+                # {"state": ..., "proc": "3", "label": "serverLoop"}: step by a known process/label
+                kind, ref, sts = ("i" if i == 0 else "s"), 0, st["state"]
+                if labels and i > 0 and st.get("label") in labels:
+                    pl = ', p |-> %s, lb |-> "%s"' % (st["proc"], st["label"])
+                    kind = "a"
             else:
                 kind, ref, sts = st
                 ref = base + ref + 1
-            recs.append('[k |-> "%s", r |-> %d, st |-> %s]' % (kind, ref, sts))
+            recs.append('[k |-> "%s", r |-> %d, st |-> %s%s]' % (kind, ref, sts, pl))
+    if labels:
+        act = "ZAct(zp, zl) ==\n" + "\n".join('    \\/ (zl = "%s" /\\ %s(zp))' % (lb, lb) for lb in labels)
+        act += '\nTraceAct == ZK("a") /\\ ZMatchP(ZTrace[l + 1].st) /\\ ZAct(ZTrace[l + 1].p, ZTrace[l + 1].lb)'
+        if use_next != "Next":
+            act += " /\\ " + use_next
+    else:
+        act = "TraceAct == FALSE /\\ UNCHANGED zTraceVars"
     match = " /\\ ".join("%s = zst.%s" % (v, v) for v in variables)
     matchp = " /\\ ".join("%s' = zst.%s" % (v, v) for v in variables)
     return """---- MODULE %(spec)sTrace ----
@@ -67,14 +87,15 @@ ZMatch(zst) == %(match)s
 ZMatchP(zst) == %(matchp)s
 ZK(zk) == l < Len(ZTrace) /\\ ZTrace[l + 1].k = zk /\\ l' = l + 1
 TraceInit == l = 1 /\\ %(init)s /\\ ZMatch(ZTrace[1].st)
-TraceStep == ZK("s") /\\ %(next)s /\\ ZMatchP(ZTrace[l + 1].st)
+TraceStep == ZK("s") /\\ ZMatchP(ZTrace[l + 1].st) /\\ %(next)s
+%(act)s
 TraceReset == ZK("i") /\\ ZMatchP(ZTrace[l + 1].st) %(rx)s /\\ (%(init)s)'
 TraceJump == ZK("j") /\\ ZTrace[l + 1].r <= l /\\ ZTrace[ZTrace[l + 1].r].st = ZTrace[l + 1].st /\\ ZMatchP(ZTrace[l + 1].st)
-TraceNext == TraceStep \\/ TraceReset \\/ TraceJump
+TraceNext == TraceStep \\/ TraceAct \\/ TraceReset \\/ TraceJump
 %(extra)s
 ====
 """ % {"spec": spec, "ext": extends_extra, "data": ",\n".join(recs), "match": match, "matchp": matchp,
-       "extra": extra_defs, "next": use_next, "init": use_init, "rx": reset_extra}
+       "extra": extra_defs, "next": use_next, "init": use_init, "rx": reset_extra, "act": act}
 
 
 def make_cfg(constants, invariants, properties=(), action_constraints=()):
@@ -91,11 +112,11 @@ def make_cfg(constants, invariants, properties=(), action_constraints=()):
 
 
 def _validate_once(specdir, spec, variables, runs, cfgtext, extra_defs, extends_extra, timeout, use_next,
-                   use_init="Init", reset_extra=""):
+                   use_init="Init", reset_extra="", labels=None):
     work = tempfile.mkdtemp(prefix="tv.", dir=os.path.dirname(specdir))
     V.copy_specs(specdir, work)
     with open(os.path.join(work, spec + "Trace.tla"), "w") as f:
-        f.write(make_trace_module(spec, variables, runs, extra_defs, extends_extra, use_next, use_init, reset_extra))
+        f.write(make_trace_module(spec, variables, runs, extra_defs, extends_extra, use_next, use_init, reset_extra, labels))
     with open(os.path.join(work, spec + "Trace.cfg"), "w") as f:
         f.write(cfgtext)
     res = V.tlc(work, spec + "Trace", cfg=spec + "Trace.cfg", workers=1, timeout=timeout, deadlock=False)
@@ -105,7 +126,7 @@ def _validate_once(specdir, spec, variables, runs, cfgtext, extra_defs, extends_
 
 def validate_runs(specdir, spec, variables, runs, constants, invariants, properties=(), extra_defs="",
                   extends_extra="", timeout=900, chunks=1, max_rounds=6, use_next="Next", use_init="Init",
-                  reset_extra=""):
+                  reset_extra="", labels=None):
     """Validate runs (list of list of state strings; each run starts in an initial state).
     Returns dict(accepted, rejected=[dict(run_index, kind, text, state_index)], states, transitions, errors)."""
     out = {"accepted": 0, "rejected": [], "states": 0, "transitions": 0, "errors": []}
@@ -125,7 +146,7 @@ def validate_runs(specdir, spec, variables, runs, constants, invariants, propert
             rr = [runs[i] for i in part]
             total = sum(len(r) for r in rr)
             res = _validate_once(specdir, spec, variables, rr, cfgtext, extra_defs, extends_extra, timeout, use_next,
-                                 use_init, reset_extra)
+                                 use_init, reset_extra, labels)
             st += res.distinct
             tr += res.generated
             if res.timed_out or res.error:
